@@ -311,3 +311,230 @@ Example C01_map_nonvacuous :
   exists ns shapes, run_shapes_map BAlg (with_kls false base_rcfg) m_orc m_spec (b_ratio 1 2) m_graph = inl (ns, shapes) /\
                     map (fun sh => (sh_class sh, sh_n sh)) shapes = [(lab_S, 3%N)].
 Proof. eexists. eexists. split; vm_compute; reflexivity. Qed.
+
+(** ** profile_graph: the figures of the profile TEXT (Model/ProfileJson.v,
+    Model/RunProfile.v; proofs in Proofs/ProfileJsonProofs.v).
+
+    [run_profile_json k c g] is [Shaper(...).profile_graph] on sink [k]
+    (string / file): tracker, profiler (the front of [run_shapes]) and CPython's
+    [json.dumps(profile, indent=c_profile_json_indent)] on the profiler's object.
+    [leaves j] lists every number of a JSON object with the path of keys /
+    list positions leading to it; [profile_path inverse cls d p k card] is where
+    the profile keeps the count of (class, direction, property, type key,
+    cardinality): [cls / p / k / card] without inverse paths, [cls / 0|1 / p /
+    k / card] with them (0 = direct, 1 = inverse features). *)
+From Shexer Require Import Gen.ConstsProfile Model.ProfileJson Model.RunProfile Proofs.ProfileJsonProofs.
+From Shexer Require Proofs.EndToEnd2.
+
+(** every number printed is the [occ] its path names, for ALL graphs and
+    configurations (no hypothesis on the graph: [I] is the tracker's own
+    dictionary); the top-level keys are pairwise distinct class keys: the
+    requested targets, then the classes of the instances in first-occurrence
+    order, minus the keys [ks] the profiler's cleaning removed (none when empty
+    shapes are kept) *)
+Theorem C01_profile_json_figures : forall k c g t,
+  run_profile_json k c g = inl t ->
+  exists I P,
+    track (r_tau c) (mode_of c) (r_cap c) g = inl I /\
+    t = render_json c_profile_json_indent 0 (profile_json (r_inverse c) P) /\
+    NoDup (top_keys (profile_json (r_inverse c) P)) /\
+    (exists ks, top_keys (profile_json (r_inverse c) P)
+                = filter (not_in ks) (class_keys (targets_of (pcfg_of c)) I) /\
+                (r_remove_empty c = false -> ks = [])) /\
+    forall path n, In (path, n) (leaves (profile_json (r_inverse c) P)) ->
+      exists cls d p ky card,
+        path = profile_path (r_inverse c) cls d p ky card /\
+        In cls (top_keys (profile_json (r_inverse c) P)) /\
+        (d = PInverse -> r_inverse c = true) /\
+        n = occ (dir_of_pdir d) (r_tau c) I g cls p ky card /\ (0 < n)%N.
+Proof. exact profile_json_figures. Qed.
+Print Assumptions C01_profile_json_figures.
+
+(** conversely every positive count of a listed class is printed, at its path
+    (except under a type key that is a class key the cleaning removed) *)
+Theorem C01_profile_json_complete : forall k c g t,
+  run_profile_json k c g = inl t ->
+  exists I P,
+    track (r_tau c) (mode_of c) (r_cap c) g = inl I /\
+    t = render_json c_profile_json_indent 0 (profile_json (r_inverse c) P) /\
+    forall cls d p ky card,
+      In cls (dkeys P) -> (d = PInverse -> r_inverse c = true) ->
+      (In ky (class_keys (targets_of (pcfg_of c)) I) -> In ky (dkeys P)) ->
+      (0 < occ (dir_of_pdir d) (r_tau c) I g cls p ky card)%N ->
+      In (profile_path (r_inverse c) cls d p ky card, occ (dir_of_pdir d) (r_tau c) I g cls p ky card)
+         (leaves (profile_json (r_inverse c) P)).
+Proof. exact profile_json_complete. Qed.
+Print Assumptions C01_profile_json_complete.
+
+(** ROUND TRIP.  [parse_profile_json] is a total parser for the JSON fragment
+    (objects with string keys, lists, non-negative integers).  For every object
+    whose string keys are well-formed UTF-8 ([keys_ok]) and every indent, the
+    printed text is read back as the object with its keys as strings
+    ([stringify_keys]: int key [n] -> "n"): the text loses nothing. *)
+Theorem C01_profile_round_trip : forall ind j,
+  keys_ok j = true -> parse_profile_json (render_json ind 0 j) = Some (stringify_keys j).
+Proof. exact parse_render_text. Qed.
+Print Assumptions C01_profile_round_trip.
+
+Theorem C01_profile_text_determines_object : forall ind j1 j2,
+  keys_ok j1 = true -> keys_ok j2 = true ->
+  render_json ind 0 j1 = render_json ind 0 j2 -> stringify_keys j1 = stringify_keys j2.
+Proof. exact render_determines. Qed.
+Print Assumptions C01_profile_text_determines_object.
+
+(** ... and [stringify_keys] merges no two cardinality keys: an int key [n]
+    and a string key "n" would collide, but the cardinality keys are ints and
+    [c_ONE_TO_MANY] = "+", and a decimal numeral is made of digits *)
+Theorem C01_profile_card_keys_distinct : forall a b : ckey, ckey_str a = ckey_str b -> a = b.
+Proof. exact ckey_str_inj. Qed.
+Print Assumptions C01_profile_card_keys_distinct.
+
+(** the string layer: a string that is well-formed UTF-8 ([utf8_ok]: its bytes
+    decode, strictly, to Unicode scalar values -- what every Python str without
+    lone surrogates is) is printed with [ensure_ascii] escapes from which the
+    parser recovers exactly its bytes; decoding loses nothing *)
+Theorem C01_profile_strings_exact : forall s r,
+  utf8_ok s = true ->
+  utf8_encode (utf8_decode s) = s /\ parse_string (json_string s ++ r) = Some (s, r).
+Proof. intros s r H. split; [exact (utf8_roundtrip s H) | exact (parse_json_string s r H)]. Qed.
+Print Assumptions C01_profile_strings_exact.
+
+(** read off the TEXT: when the profile's keys are well-formed UTF-8 the text
+    parses, its top-level keys are exactly the class keys of the profile (in
+    order), and every figure in it is the [occ] its path names *)
+Theorem C01_profile_text_figures : forall k c g t,
+  run_profile_json k c g = inl t ->
+  exists I P,
+    track (r_tau c) (mode_of c) (r_cap c) g = inl I /\
+    (profile_keys_ok (r_inverse c) P = true ->
+     exists j, parse_profile_json t = Some j /\
+       j = stringify_keys (profile_json (r_inverse c) P) /\
+       top_keys j = dkeys P /\
+       forall path n, In (path, n) (leaves j) ->
+         exists cls d p ky card,
+           path = profile_path (r_inverse c) cls d p ky card /\ In cls (top_keys j) /\
+           (d = PInverse -> r_inverse c = true) /\
+           n = occ (dir_of_pdir d) (r_tau c) I g cls p ky card /\ (0 < n)%N).
+Proof. exact profile_text_figures. Qed.
+Print Assumptions C01_profile_text_figures.
+
+(** non-vacuity: the profile texts of two pinned graphs of Proofs/RunWitness.v
+    -- the literal texts are what the real [profile_graph(string_output=True)]
+    returns on these documents -- parse back, and one of their figures *)
+Definition profile_text_mixed : str :=
+(Str "{
+  ""http://ex.org/C"": {
+    ""http://www.w3.org/1999/02/22-rdf-syntax-ns#type"": {
+      ""http://ex.org/C"": {
+        ""1"": 3
+      }
+    },
+    ""http://ex.org/p"": {
+      ""IRI"": {
+        ""2"": 1,
+        ""+"": 2,
+        ""1"": 1
+      },
+      ""BNode"": {
+        ""1"": 1,
+        ""+"": 1
+      }
+    }
+  }
+}").
+
+Definition profile_text_reftie_inverse : str :=
+(Str "{
+  ""http://ex.org/C"": [
+    {
+      ""http://www.w3.org/1999/02/22-rdf-syntax-ns#type"": {
+        ""http://ex.org/C"": {
+          ""1"": 1
+        }
+      },
+      ""http://ex.org/p"": {
+        ""IRI"": {
+          ""1"": 1,
+          ""+"": 1
+        },
+        ""%<http://weso.es/shapes/C1>"": {
+          ""1"": 1,
+          ""+"": 1
+        },
+        ""%<http://weso.es/shapes/C2>"": {
+          ""1"": 1,
+          ""+"": 1
+        }
+      }
+    },
+    {}
+  ],
+  ""http://ex.org/C1"": [
+    {
+      ""http://www.w3.org/1999/02/22-rdf-syntax-ns#type"": {
+        ""http://ex.org/C1"": {
+          ""1"": 1
+        },
+        ""http://ex.org/C2"": {
+          ""1"": 1
+        }
+      }
+    },
+    {
+      ""http://ex.org/p"": {
+        ""IRI"": {
+          ""1"": 1,
+          ""+"": 1
+        },
+        ""%<http://weso.es/shapes/C>"": {
+          ""1"": 1,
+          ""+"": 1
+        }
+      }
+    }
+  ],
+  ""http://ex.org/C2"": [
+    {
+      ""http://www.w3.org/1999/02/22-rdf-syntax-ns#type"": {
+        ""http://ex.org/C1"": {
+          ""1"": 1
+        },
+        ""http://ex.org/C2"": {
+          ""1"": 1
+        }
+      }
+    },
+    {
+      ""http://ex.org/p"": {
+        ""IRI"": {
+          ""1"": 1,
+          ""+"": 1
+        },
+        ""%<http://weso.es/shapes/C>"": {
+          ""1"": 1,
+          ""+"": 1
+        }
+      }
+    }
+  ]
+}").
+
+Example C01_profile_text_nonvacuous :
+  run_profile_json PString base_rcfg g_mixed = inl profile_text_mixed /\
+  run_profile_json PString (EndToEnd2.rwith_inverse true base_rcfg) g_reftie_1 = inl profile_text_reftie_inverse /\
+  (exists j, parse_profile_json profile_text_mixed = Some j /\ top_keys j = [ex "C"] /\
+             In ([SKey (ex "C"); SKey (ex "p"); SKey c_IRI_ELEM_TYPE; SKey (Str "2")], 1%N) (leaves j) /\
+             In ([SKey (ex "C"); SKey (ex "p"); SKey c_IRI_ELEM_TYPE; SKey (Str "+")], 2%N) (leaves j)) /\
+  (exists j, parse_profile_json profile_text_reftie_inverse = Some j /\ top_keys j = [ex "C"; ex "C1"; ex "C2"] /\
+             In ([SKey (ex "C1"); SIdx 1; SKey (ex "p"); SKey (Str "%<http://weso.es/shapes/C>"); SKey (Str "1")], 1%N)
+                (leaves j)) /\
+  occ Direct tau [(ex "a", [ex "C"]); (ex "b", [ex "C"]); (ex "c", [ex "C"])] g_mixed (ex "C") (ex "p") c_IRI_ELEM_TYPE (CKn 2) = 1%N /\
+  utf8_ok (Str "http://ex.org/C") = true /\ utf8_ok [ascii_of_nat 195; ascii_of_nat 169] = true /\
+  utf8_ok [ascii_of_nat 195] = false /\
+  json_string [ascii_of_nat 240; ascii_of_nat 159; ascii_of_nat 152; ascii_of_nat 128] = Str """\ud83d\ude00""".
+Proof.
+  split; [vm_compute; reflexivity|]. split; [vm_compute; reflexivity|].
+  split; [eexists; split; [vm_compute; reflexivity|]; split; [reflexivity|]; split; vm_compute; tauto|].
+  split; [eexists; split; [vm_compute; reflexivity|]; split; [reflexivity|]; vm_compute; tauto|].
+  repeat split; vm_compute; reflexivity.
+Qed.
